@@ -54,6 +54,13 @@ class World(object):
         self.D[0].add_component(T * 7 + 1, 'n0')
         self.cid['n0'] = self.D[0].id['n0']
         self.coef['n0'] = (7.0, 1.0)
+        # an INTERNAL derived attribute of d0 (g0 = c00 * 1.0): links can end on it, and removing its parent c00
+        # removes it as well
+        dcomp = self.D[0].add_component_link(self.cid['c00'] * 1.0, 'g0')
+        self.cid['g0'] = dcomp.link.get_to_id()
+        self.coef['g0'] = coef(0, 0)
+        self.internal = [(['c00'], 'g0', 0.0)]       # atomic links owned by a dataset (active while it is in the collection)
+        self.derived_of = {'c00': ['g0']}
         self.owner = {name: int(name[1]) for name in self.cid}
         self.present = set(self.cid)          # components currently in their dataset
         self.inv_cid = {id(c): n for n, c in self.cid.items()}
@@ -105,6 +112,8 @@ class World(object):
             one('j', 'c21', 'c30')
         # inconsistent detour scenario: x is a direct d0 -> c20 link that is off by +100;
         # the exact route c00 -> c10 (a), c10 -> c20 (y) has depth 2.
+        self.links['k'] = LinkTwoWay(c['g0'], c['c21'], aff('g0', 'c21'), aff('c21', 'g0'))   # on the derived attribute
+        self.atoms['k'] = [(['g0'], 'c21', 0.0), (['c21'], 'g0', 0.0)]
         one('x', 'c01', 'c20', bias=100.0)
         one('y', 'c10', 'c20')
         self.names = scn.link_names
@@ -134,7 +143,10 @@ class Scenario(object):
         for n in w.names:
             ops.append(['rm_link' if n in w.registered else 'add_link', n])
         for cn in self.comps:
-            ops.append(['rm_comp' if cn in w.present else 'add_comp', cn])
+            if cn in w.present:
+                ops.append(['rm_comp', cn])
+            elif cn not in ('g0',):        # a removed derived attribute is not re-created
+                ops.append(['add_comp', cn])
         for i in self.data:
             ops.append(['rm_data' if i in w.in_dc else 'add_data', i])
         if self.delay:
@@ -153,8 +165,10 @@ class Scenario(object):
             elif k == 'rm_comp':
                 d = w.D[w.owner[op[1]]]
                 d.remove_component(w.cid[op[1]])
-                w.present.discard(op[1])
-                self._drop(w, lambda atoms: any(op[1] in src or op[1] == dst for src, dst, _ in atoms))
+                gone = [op[1]] + [x for x in w.derived_of.get(op[1], []) if x in w.present]
+                for g in gone:     # internal derived attributes go with their parent
+                    w.present.discard(g)
+                self._drop(w, lambda atoms: any(set(gone) & (set(src) | {dst}) for src, dst, _ in atoms))
             elif k == 'add_comp':
                 d = w.D[w.owner[op[1]]]
                 a, b = w.coef[op[1]]
@@ -191,9 +205,13 @@ class Scenario(object):
         atoms = []
         for n in w.registered:
             atoms.extend(w.atoms[n])
+        derived = set(dst for _, dst, _ in w.internal)
+        for src, dst, bias in w.internal:
+            if w.owner[dst] in w.in_dc and dst in w.present and all(x in w.present for x in src):
+                atoms.append((src, dst, bias))
         known = {}
         for n in w.present:
-            if w.owner[n] == i:
+            if w.owner[n] == i and n not in derived:
                 a, b = w.coef[n]
                 known[n] = (0, {tuple(a * T + b)})
         depth = 0
@@ -290,11 +308,13 @@ def tiers(tier):
     if tier == 'quick':
         return [('exact3', Scenario(3, ['a', 'b', 'c', 'd', 'e', 'f', 'g'], comps=('c11', 'n0'), data=(1, 2)), 6),
                 ('detour', Scenario(3, ['a', 'x', 'y', 'b'], comps=('c10',), data=(1,), delay=False), 7),
-                ('multi', Scenario(3, ['m', 'a', 'b', 'c'], comps=('c01', 'c20'), data=(2,), delay=False), 5)]
+                ('multi', Scenario(3, ['m', 'a', 'b', 'c'], comps=('c01', 'c20'), data=(2,), delay=False), 5),
+                ('derived', Scenario(3, ['k', 'c', 'e'], comps=('c00', 'g0', 'c21'), data=(0, 2), delay=False), 5)]
     return [('exact3', Scenario(3, ['a', 'b', 'c', 'd', 'e', 'f', 'g'], comps=('c11', 'n0', 'c20'), data=(0, 1, 2)), 6),
             ('exact4', Scenario(4, ['a', 'b', 'c', 'd', 'e', 'f', 'g', 'h', 'i', 'j'], comps=('c11',), data=(1, 3)), 5),
             ('detour', Scenario(3, ['a', 'x', 'y', 'b', 'e'], comps=('c10', 'c01'), data=(1, 2)), 7),
-            ('multi', Scenario(3, ['m', 'a', 'b', 'c', 'f'], comps=('c01', 'c20', 'c11'), data=(1, 2)), 6)]
+            ('multi', Scenario(3, ['m', 'a', 'b', 'c', 'f'], comps=('c01', 'c20', 'c11'), data=(1, 2)), 6),
+            ('derived', Scenario(3, ['k', 'c', 'e', 'a'], comps=('c00', 'g0', 'c21'), data=(0, 2)), 6)]
 
 
 def run(tier):
